@@ -171,6 +171,47 @@ where
                         transcripts.push(("one layer and one commitment more than the verifier's options define", FriOptions::new(cfg.blowup, cfg.k, deeper.rem_deg)));
                     }
                 }
+                // a proof built for a SHALLOWER schedule (one layer and one commitment fewer than the verifier's options
+                // define, a remainder k times longer) and the deeper one above, handed to the complete verifier: both are
+                // well-formed FRI proofs of the same function - for other options. The verifier must answer (never panic),
+                // and it must not accept a transcript whose number of layers is not the one its options define.
+                {
+                    let mut others: Vec<(&str, FriOptions)> = transcripts.iter().skip(1).cloned().collect();
+                    let shallow = Cfg { rem_deg: (cfg.rem_deg + 1) * cfg.k - 1, ..cfg };
+                    if cfg.num_layers() >= 1 && shallow.well_formed() && shallow.num_layers() + 1 == cfg.num_layers() {
+                        others.push(("one layer and one commitment fewer than the verifier's options define", FriOptions::new(cfg.blowup, cfg.k, shallow.rem_deg)));
+                    }
+                    for (tname, popts) in others {
+                        for positions in [vec![1usize, cfg.n / 2 + 1], vec![0usize]] {
+                            let mut channel = DefaultProverChannel::<E, H, DefaultRandomCoin<H>>::new(cfg.n, positions.len());
+                            let mut prover = FriProver::<E::BaseField, E, _, H>::new(popts.clone());
+                            prover.build_layers(&mut channel, evals.clone());
+                            let proof = prover.build_proof(&positions);
+                            let coms: Vec<H::Digest> = channel.layer_commitments().to_vec();
+                            let claimed: Vec<E> = positions.iter().map(|p| evals[*p]).collect();
+                            let opts = opts.clone();
+                            let pos2 = positions.clone();
+                            n_cases += 1;
+                            let r = pan::catch(move || -> Result<(), String> {
+                                let mut vch = DefaultVerifierChannel::<E, H>::new(proof, coms, cfg.n, cfg.k).map_err(|e| format!("channel: {e}"))?;
+                                let mut coin = <DefaultRandomCoin<H> as RandomCoin>::new(&[]);
+                                let verifier = FriVerifier::<E, _, H, DefaultRandomCoin<H>>::new(&mut vch, &mut coin, opts, cfg.n / cfg.blowup - 1).map_err(|e| format!("{:?}", e))?;
+                                verifier.verify(&mut vch, &claimed, &pos2).map_err(|e| format!("{:?}", e))
+                            });
+                            match r {
+                                Ok(Err(_)) => out.class(&format!("refused: a proof with {tname}")),
+                                Ok(Ok(())) => out.violation(
+                                    format!("{nm}: the FRI verifier accepts a proof with {tname}"),
+                                    json!({"config": format!("{:?}", cfg), "positions": positions}),
+                                ),
+                                Err(p) => out.violation(
+                                    format!("{nm}: the FRI verifier panics on a proof with {tname} ({})", p.class()),
+                                    json!({"config": format!("{:?}", cfg), "positions": positions, "panic": p.msg}),
+                                ),
+                            }
+                        }
+                    }
+                }
                 for (tname, popts) in transcripts {
                     let mut channel = DefaultProverChannel::<E, H, DefaultRandomCoin<H>>::new(cfg.n, positions.len());
                     let mut prover = FriProver::<E::BaseField, E, _, H>::new(popts);
